@@ -69,6 +69,13 @@ Proof.
   destruct nl; reflexivity.
 Qed.
 
+(* a constant prefix is the special case the theorems above speak about *)
+Lemma ev_run_var_const en pfx ws : ev_run_var en (map (fun w => (pfx, w)) ws) pfx = ev_run en pfx ws.
+Proof.
+  unfold ev_run_var, ev_run. f_equal. generalize ev0. induction ws as [|w ws IH]; intros e; [reflexivity|].
+  cbn [map fold_left fst snd]. apply IH.
+Qed.
+
 Theorem nothing_printed_above_verbosity pfx ws : printed (ev_run false pfx ws) = [].
 Proof.
   unfold ev_run, ev_close, print_stdout. cbn [negb].
